@@ -5,6 +5,7 @@ import (
 	"fmt"
 	"sort"
 	"strings"
+	"sync"
 	"testing"
 	"time"
 
@@ -20,7 +21,13 @@ import (
 type c20Case struct {
 	Public map[string]bool `json:"public"`           // publicity of every symbol of the store except id
 	Mapped []string        `json:"mapped,omitempty"` // scalar symbols wrapped with MapSymbol after registration: their publicity stays what it was
-	Query  kit.QuerySpec   `json:"query"`
+	// ChildSetup: how the child store came by its symbols. 0: one GrantSymbols. 1: granted, then the child publishes a
+	// symbol the parent keeps private, then the wiring runs again (second GrantSymbols). 2: granted, then the child
+	// registers the standard entity symbols itself (AddExtEntitySymbols, which publishes tags)
+	ChildSetup int `json:"childSetup,omitempty"`
+	// Overlap: the validation of the parsed query is also run from four goroutines at once
+	Overlap bool          `json:"overlap,omitempty"`
+	Query   kit.QuerySpec `json:"query"`
 }
 
 var c20Symbols = []string{"sa", "sb", "ia", "ib", "fa", "ba", "ta", "boss", "home", "roles", "nums", "places", "peers", "tags", "boss.sa", "home.name", "peers.sa", "peers.id", "boss.id"}
@@ -141,6 +148,8 @@ func genC20(t *rapid.T) c20Case {
 	}
 	q.Page = genPaging(t, "pg", 5)
 	c.Query = q
+	c.ChildSetup = []int{0, 0, 1, 2}[rapid.IntRange(0, 3).Draw(t, "childSetup")]
+	c.Overlap = rapid.IntRange(0, 7).Draw(t, "overlap") == 0
 	if rapid.IntRange(0, 3).Draw(t, "withMapped") == 0 {
 		c.Mapped = rapid.SliceOfNDistinct(rapid.SampledFrom([]string{"sa", "sb", "ia", "ib", "fa", "ba", "ta"}), 1, 3, rapid.ID[string]).Draw(t, "mapped")
 	}
@@ -295,6 +304,25 @@ func runC20(c c20Case) kit.Result {
 	// (queries with dotted symbols are left out: GrantSymbols hands over the store's own symbols, and whether a
 	// dotted name made public on the parent is public on the child as well is not stated)
 	child := buildC20Child(store)
+	childPublic := map[string]bool{}
+	for k, v := range c.Public {
+		childPublic[k] = v
+	}
+	switch c.ChildSetup {
+	case 1:
+		for _, s := range []string{"sa", "sb", "ia", "ib", "fa", "ba", "ta", "roles", "nums"} {
+			if !c.Public[s] {
+				child.MakeSymbolPublic(s)
+				childPublic[s] = true
+				break
+			}
+		}
+		store.GrantSymbols(child)
+	case 2:
+		child.AddExtEntitySymbols()
+		childPublic["tags"] = true
+	}
+	res.Classes = append(res.Classes, fmt.Sprintf("child-setup:%d", c.ChildSetup))
 	usesDotted := false
 	for _, d := range c20Dotted {
 		if _, ok := refs[d.name]; ok {
@@ -306,9 +334,38 @@ func runC20(c c20Case) kit.Result {
 	} else if cq, cerr := ast.Parse(child, text); cerr != nil {
 		res.Err = fmt.Errorf("query %s accepted by the parent store's parser but rejected through the child store: %v", text, cerr)
 		return res
-	} else if cverr := boltz.ValidateSymbolsArePublic(cq, child); (cverr == nil) != (verr == nil) {
-		res.Err = fmt.Errorf("query %s: public-symbol validation says %v on the parent store and %v on a child store that inherited its symbols", text, verr, cverr)
-		return res
+	} else {
+		var childNonPublic []string
+		for sym := range refs {
+			if sym != "id" && !childPublic[sym] {
+				childNonPublic = append(childNonPublic, sym)
+			}
+		}
+		sort.Strings(childNonPublic)
+		if cverr := boltz.ValidateSymbolsArePublic(cq, child); (cverr == nil) != (len(childNonPublic) == 0) {
+			res.Err = fmt.Errorf("query %s: public-symbol validation on the child store (set-up %d; referenced symbols that are not public there: %v) says %v; on the parent store it says %v", text, c.ChildSetup, childNonPublic, cverr, verr)
+			return res
+		}
+	}
+	if c.Overlap {
+		// the same parsed query validated by four requests at once: each gets the serial verdict
+		var wg sync.WaitGroup
+		verdicts := make([]error, 4)
+		for g := range verdicts {
+			wg.Add(1)
+			go func(g int) {
+				defer wg.Done()
+				verdicts[g] = boltz.ValidateSymbolsArePublic(q, store)
+			}(g)
+		}
+		wg.Wait()
+		for _, v := range verdicts {
+			if (v == nil) != (verr == nil) {
+				res.Err = fmt.Errorf("query %s: validated alone the verdict is %v, validated by four requests at once one of them got %v", text, verr, v)
+				return res
+			}
+		}
+		res.Classes = append(res.Classes, "validated-concurrently")
 	}
 	if len(nonPublic) == 0 {
 		if verr != nil {
